@@ -68,7 +68,7 @@ CLAIMED["C10"] = dict(
     note="Assumed: bindnode schema strictness (unknown, missing or wrongly typed payload fields are rejected by AssignNode against the embedded .ipldsch) — a dependency behaviour contracts cannot decide here; "
          "the reflection-based slow path of literal.Any (anyAssemble) is abstracted; policy.FromIPLD is used through a trusted contract (its shape is C14).",
     design="DESIGN.md §3 C10")
-for pid in ["C07","C09","C11","C16","C19"]:
+for pid in ["C07","C09","C16","C19"]:
     NOT_APPLICABLE[pid] = "contracts for this property are not registered yet in this tree (work in progress; see DESIGN.md §6 staging)"
 
 STREAM_NOTE = ("Assumed (trusted, stubs/io.spec): the io.Reader / io.Writer protocol; delivered/written and the fault counters failed/wfailed are ghost history variables of the "
@@ -126,3 +126,16 @@ CLAIMED["C14"] = dict(
          "which with the decoder's shape contract gives preservation of lengths and operators across a round trip; deep equality of the leaf values and behavioural equality after a round trip are not under contract. "
          "Assumed: what the three regular expressions guarantee about a matching text (first characters, presence of ':') — read off the patterns and stated as `given` clauses; strconv / strings helpers through stubs.",
     design="DESIGN.md §3 C14, §7")
+
+CLAIMED["C11"] = dict(
+    text="Proof (unbounded): matchStatement is verified, for every well-formed statement tree and every node, to return sem(statement, node) — a four-valued semantics (true / false / no data / optional no data) "
+         "defined by structural recursion: leaves are no-data when the selector fails (selector resolution through the verified contract of C12), optional-no-data when it yields no value, otherwise the classical truth of "
+         "== (DeepEqual), < <= > >= (same-kind numbers only: int64-representable integers, finite floats), like (the glob language of C13; non-strings are false); not swaps true/false; and / all take the worst and or / any the best "
+         "outcome of their operands / list elements in the order true < optional-no-data < no-data < false, characterised by 'bounds every operand and is attained', which does not mention operand order. "
+         "Recursion terminates (measure on finite statement trees), loops over operands / list elements carry 'worst / best so far' invariants. Policy.Match / PartialMatch are verified against the conjunction over statements. "
+         "The property's clauses are machine-checked lemmas over that characterisation: invariance under any permutation of operands / elements, monotonicity of and/all for both notions of passing, "
+         "classical and/or when all operands have data, full match implies partial match, required-vs-optional missing data, Match(P++Q) = Match(P) && Match(Q).",
+    note="Input validity (requires): statements are well-formed finite trees of the package's five statement types with consistent kinds, non-nil operands and well-formed selectors (what the constructors and the verified decoder produce; "
+         "the unfolding of wfStmt and the definition of sem are `given` clauses — definitional). ['or', []] is true and `any` over an empty list is false (the implementation's conventions, pinned by the existing tests). "
+         "Assumed: datamodel.DeepEqual, cmp.Compare, math.IsInf/IsNaN, node observers through stubs; floats are an uninterpreted sort (NaN / Inf only as 'comparison is false').",
+    design="DESIGN.md §3 C11, §7")
